@@ -19,7 +19,7 @@ def _sig_operand(typ, ops):
 
 def check_effects(case):
     nl, spec = case['nl'], case['spec']
-    c = build.build(nl, case['route'])
+    c = simp.build_for_pass(case)
     res = simp.apply_spec(spec, c, reuse=bool(case.get('reuse_instance')), hand=case.get('hand', 'list'))
     atoms = simp.atoms_of(spec)
     # pipelines equal sequencing of the constituent passes
